@@ -563,6 +563,8 @@ class SchemaRoundTrip(Contract):
         col_objs = []
         for i in range(ncols):
             name = T.fresh_value(T.Str, f"colname{i}")
+            for other in cols:
+                cur().assume(name != other)  # keys of one dict
             o = component_object("column", f"col{i}", kinds[i % 2], [] if i == 0 else ["in_range"])
             cols[name] = o
             col_objs.append(o)
